@@ -3755,9 +3755,12 @@ class Graph(_protocols.GraphProtocol, Sequence[Node], _display.PrettyPrintable):
         return reversed(self._nodes)
 
     def _set_input_and_initializer_value_names_into_name_authority(self):
+        # Register all explicit names first so that a name generated for an unnamed input
+        # cannot equal the name of an initializer or of a later input
+        for value in (*self.inputs, *self.initializers.values()):
+            if value.name is not None:
+                self._name_authority.register_or_name_value(value)
         for value in self.inputs:
-            self._name_authority.register_or_name_value(value)
-        for value in self.initializers.values():
             self._name_authority.register_or_name_value(value)
 
     def _check_node_can_be_added(self, node: Node) -> None:
